@@ -45,13 +45,22 @@ class ReadStream(Stream):
             pins = rng.sample(range(n), rng.randint(0, n))
             u = [[k, [z.real, z.imag]] for k, z in ((k, rand_dyadic(rng, 16, 8)) for k in pins)]
             out.append({"idx": idx, "S": S, "u": u, "p": rng.randrange(n), "q": rng.randrange(n),
-                        "power": rng.random() < 0.5})
+                        "power": rng.random() < 0.5, "moded": rng.random() < 0.5})
         return out
+
+    @staticmethod
+    def _pin(d, k):
+        # half of the models carry modes on their pins (printable name base_mode)
+        return Pin(f"p{k}", ("te", "tm")[k % 2]) if d.get("moded") else Pin(f"p{k}")
+
+    @classmethod
+    def _pn(cls, d, k):
+        return cls._pin(d, k).name
 
     def _model(self, d):
         n = len(d["idx"])
         S = np.array([j2m(M) for M in d["S"]], complex).reshape(len(d["S"]), n, n)
-        pin_dic = {Pin(pname(k)): d["idx"][k] for k in range(n)}
+        pin_dic = {self._pin(d, k): d["idx"][k] for k in range(n)}
         # one swept parameter and one length-1 parameter (broadcast along the sweep in every table)
         params = {"wl": np.linspace(1.0, 2.0, len(d["S"])), "Tmp": np.array([0.375])}
         mod = lk.SolvedModel(pin_dic=pin_dic, param_dic=params, Smatrix=S)
@@ -72,23 +81,23 @@ class ReadStream(Stream):
         n = len(d["idx"])
         # the model's matrix is given in index order: S_model[i][j] = S[i][j]
         mod = self._model(d)
-        u_name = {pname(k): complex(*v) for k, v in d["u"]}
-        u_pin = {Pin(pname(k)): complex(*v) for k, v in d["u"]}
-        p, q = pname(d["p"]), pname(d["q"])
+        u_name = {self._pn(d, k): complex(*v) for k, v in d["u"]}
+        u_pin = {self._pin(d, k): complex(*v) for k, v in d["u"]}
+        p, q = self._pn(d, d["p"]), self._pn(d, d["q"])
 
         def reads(upd, P, Q):
             out = {}
             o = mod.get_output(dict(upd), power=d["power"])
-            out["out0"] = [complex(o[pname(k)]) for k in range(n)]
+            out["out0"] = [complex(o[self._pn(d, k)]) for k in range(n)]
             fo = mod.get_full_output(dict(upd), power=d["power"])
-            out["full"] = [[complex(fo[pname(k)].to_numpy()[r]) for k in range(n)] for r in range(len(d["S"]))]
+            out["full"] = [[complex(fo[self._pn(d, k)].to_numpy()[r]) for k in range(n)] for r in range(len(d["S"]))]
             dt = mod.get_data(P, Q)
             out["data"] = [(complex(dt["T"].to_numpy()[r]), complex(dt["Amplitude"].to_numpy()[r]))
                            for r in range(len(d["S"]))]
             out["AT0"] = (complex(mod.get_A(P, Q)), complex(mod.get_T(P, Q)))
             # the full sweep table (also what export writes): its (p, q) and (q, p) columns are the same slices of S
             fd = mod.get_full_data()
-            PP, QQ = (P if isinstance(P, Pin) else Pin(P)), (Q if isinstance(Q, Pin) else Pin(Q))
+            PP, QQ = (P if isinstance(P, Pin) else mod.pin[P]), (Q if isinstance(Q, Pin) else mod.pin[Q])
             rev = mod.get_data(Q, P)
             ns = len(d["S"])
             out["fulldata_ok"] = bool(
@@ -107,7 +116,8 @@ class ReadStream(Stream):
         except Exception:
             r1, l1 = None, ("Raised",) * 4
         try:
-            r2 = reads(u_pin, Pin(p), Pin(q))
+            PP, QQ = self._pin(d, d["p"]), self._pin(d, d["q"])
+            r2 = reads(u_pin, PP, QQ)
         except Exception:
             r2 = None
         same = (r1 is not None and r2 is not None and json.dumps(r1, default=str) == json.dumps(r2, default=str)
@@ -116,10 +126,11 @@ class ReadStream(Stream):
             # the model is re-labelled AFTER it was read (the two names swapped): every accessor must follow the new labels
             try:
                 before = (complex(mod.get_A(q, p)), complex(mod.get_T(q, p)), complex(mod.get_PH(q, p)))
-                mod.pin_mapping({Pin(p): Pin(q), Pin(q): Pin(p)})
+                PP, QQ = self._pin(d, d["p"]), self._pin(d, d["q"])
+                mod.pin_mapping({PP: QQ, QQ: PP})
                 after = (complex(mod.get_A(p, q)), complex(mod.get_T(p, q)), complex(mod.get_PH(p, q)))
-                after_pin = (complex(mod.get_A(Pin(p), Pin(q))), complex(mod.get_T(Pin(p), Pin(q))),
-                             complex(mod.get_PH(Pin(p), Pin(q))))
+                after_pin = (complex(mod.get_A(PP, QQ)), complex(mod.get_T(PP, QQ)),
+                             complex(mod.get_PH(PP, QQ)))
                 same = before == after == after_pin and bool(
                     np.array_equal(mod.get_data(p, q)["Amplitude"].to_numpy()[:1], np.array([before[0]])))
             except Exception:
@@ -141,7 +152,7 @@ class ReadStream(Stream):
     def py_repro(self, d):
         return ("import sys; sys.path.insert(0,'/verif/harness'); import c15, json\n"
                 f"d=json.loads({json.dumps(d)!r}); m=c15.ReadStream()._model(d)\n"
-                "print(m.get_output({c15.Pin(c15.pname(k)): complex(*v) for k,v in d['u']}, power=d['power']))\n")
+                "print(m.get_output({c15.Pin(c15.self._pn(d, k)): complex(*v) for k,v in d['u']}, power=d['power']))\n")
 
 
 # ---------------------------------------------------------------------------------------------
